@@ -288,7 +288,7 @@ def check(acc, m: Mol, seed):
         pass
     except Exception:  # noqa: BLE001
         acc.count("foreign_not_buildable")
-    if acc.evaluations % 41 == 0:
+    if len(acc.samples) < 3:
         acc.sample({"molecule": text, "lengths_up_to": nmax, "sum_of_probabilities": round(total, 9)})
 
 
